@@ -172,3 +172,32 @@ def enum_predicate(func):
     if ens and rets and all(e.get("const") in (None, True, False) for e in rets):
         return ens
     return None
+
+
+def writer_map(prog, func, lib):
+    """{enumerator: literal} a writer prints: the switch-return / switch-insert map of the function itself or of the file-local
+    (or same-class) helpers and lambdas it delegates the choice of the literal to."""
+    out = dict(switch_map(func))
+    if out:
+        return out
+    for g in lib.region(prog, func, within=lambda g: g.is_lambda or (g.file == func.file and (not g.cls or g.cls == func.cls)), depth=2):
+        if g.id != func.id:
+            for k, v in switch_map(g).items():
+                out.setdefault(k, v)
+    return out
+
+
+def arg_literal(prog, a):
+    """the string an argument stands for: a literal, or a namespace-scope constant initialised with one (both sides of a table may
+    share one named constant)"""
+    k = a.get("const")
+    if isinstance(k, str) and k.startswith("s:"):
+        return k[2:]
+    g = a.get("g")
+    if g:
+        for v in prog.vars:
+            if v["name"] == g:
+                m = re.match(r'^\s*"((?:[^"\\]|\\.)*)"\s*$', v.get("init") or "")
+                if m:
+                    return m.group(1)
+    return None
